@@ -18,7 +18,7 @@ var cleanRPs = []string{"autogen", "rp", "two weeks", "r,p", "default", "ü", "r
 var tagKeys = []string{"host", "dc", "a b", "k,1", "k=2", "é", "zone", "H", "q\""}
 var tagVals = []string{"a", "serverA", "us west", "v,1", "v=2", "ü", "\"", "0", "x y=z,w", "日本"}
 var fieldKeys = []string{"value", "v", "f 1", "f,2", "f=3", "f\"4", "é", "count", "i", "t"}
-var strVals = []string{"", "plain", "with space", "a,b", "a=b", "q\"uote", "\"", "\"\"", "back\\slash", "\\", "\\\\", "trail\\", "\\\"", "a\\\"b", "héllo wörld", "日本語", "😀", "x=1,y=\"2\" z", " ", "i", "1i", "true", "t", "#", "tab\t", "\r", "a\rb", "\\n", "'"}
+var strVals = []string{"", "plain", "with space", "a,b", "a=b", "q\"uote", "\"", "\"\"", "back\\slash", "\\", "\\\\", "trail\\", "\\\"", "a\\\"b", "héllo wörld", "日本語", "😀", "x=1,y=\"2\" z", " ", "i", "1i", "true", "t", "#", "tab\t", "\r", "a\rb", "\\n", "'", "a\nb", "\n", "line1\nline2\nline3", "x\n", "\ny", "q\"\nr", "a\r\nb", "a,b\n c=d"}
 
 // dirty: components that contain a newline (or a trailing CR in db/rp)
 var dirtyStr = []string{"a\nb", "\n", "line1\nline2\nline3", "x\n", "\ny", "q\"\nr", "a\r\nb"}
@@ -77,6 +77,13 @@ func genTags(r *kit.Rand, n int) string {
 		t = append(t, kit.Esc(k)+"="+kit.Esc(kit.Pick(r, tagVals)))
 	}
 	return list(t, ",")
+}
+
+// genTagsFor returns one of the tags of base with a different value.
+func genTagsFor(r *kit.Rand, base string) string {
+	kvs := strings.Split(base, ",")
+	p := strings.SplitN(kit.Pick(r, kvs), "=", 2)
+	return p[0] + "=" + kit.Esc(kit.Pick(r, tagVals)+"2")
 }
 
 // mergeTags adds the tags of extra whose keys are not in base (base wins), keeping the keys sorted.
@@ -193,7 +200,7 @@ func dirtyPoint(r *kit.Rand, t int64) string {
 	case 6:
 		db = kit.Pick(r, []string{"db\r", "\r"})
 	default:
-		fields = []string{"s=" + renderValue(d)}
+		tags = []string{"host=a", kit.Esc("z"+d) + "=b"}
 	}
 	return fmt.Sprintf("pt %s %s %s %s %s %d", kit.Esc(db), kit.Esc(rp), kit.Esc(name), list(tags, ","), list(fields, ","), t)
 }
@@ -282,6 +289,13 @@ func genBatch(r *kit.Rand, i int, tier string) []string {
 	var firstT int64
 	haveFirst := false
 	t0 := genTimes(r, 1)[0]
+	// granularity of the timestamps: RFC3339Nano drops trailing zeros, so whole seconds / ms / us print differently
+	gran := kit.Pick(r, []int64{1, 1, 1, 1000, 1000000, 1000000000})
+	if gran > 1 && t0 > -(1<<60) && t0 < 1<<60 {
+		t0 -= t0 % gran
+	}
+	step := func(n int) int64 { return int64(r.Intn(n)) * gran }
+	_ = step
 	for b := 0; b < nb; b++ {
 		np := r.Range(1, 5)
 		if (kind == 5 || kind == 3) && r.Chance(1, 2) {
@@ -292,11 +306,11 @@ func genBatch(r *kit.Rand, i int, tier string) []string {
 		var pts []string
 		var last int64 = t0
 		for p := 0; p < np; p++ {
-			last = t0 + int64(r.Intn(1000))
+			last = t0 + step(1000)
 			if r.Chance(1, 6) {
 				last = t0
 			}
-			t0 = last + int64(r.Intn(3))
+			t0 = last + step(3)
 			if !haveFirst {
 				firstT, haveFirst = last, true
 			}
@@ -304,19 +318,22 @@ func genBatch(r *kit.Rand, i int, tier string) []string {
 			if r.Chance(1, 3) { // extra (non-group) tags on the point: the batch is grouped by a subset of the tags
 				ptags = mergeTags(btags, genTags(r, r.Range(1, 2)))
 			}
+			if ptags != "-" && r.Chance(1, 6) { // the point's value of a GROUP tag differs from the group's
+				ptags = mergeTags(genTagsFor(r, ptags), ptags)
+			}
 			if (kind == 9 || kind == 3) && r.Chance(1, 2) {
 				ptags = "-" // tagless point in a (possibly tagged) batch
 			}
 			pts = append(pts, ptags+"!"+genFields(r, r.Range(1, 3), kinds)+"!"+strconv.FormatInt(last, 10))
 		}
-		tmax := last + int64(r.Intn(1000))
+		tmax := last + step(1000)
 		if r.Chance(1, 4) {
 			tmax = last
 		}
 		if kind == 6 && r.Chance(1, 2) {
-			tmax = last - int64(r.Intn(100)) - 1 // tmax before the last point (ill-formed batch)
+			tmax = last - step(100) - gran // tmax before the last point (ill-formed batch)
 		}
-		t0 = tmax + int64(r.Intn(5))
+		t0 = tmax + step(5)
 		lines = append(lines, fmt.Sprintf("b %s %s %d %s %s", kit.Esc(kit.Pick(r, cleanNames)), b01(r.Bool()), tmax, btags, list(pts, ";")))
 	}
 	file := ""
